@@ -7,6 +7,6 @@ wt=/tmp/wt/try-$pid-$$
 git -C /repo worktree add -q --detach $wt HEAD || exit 2
 git -C $wt apply $patch 2>/tmp/apply.err.$$ || git -C $wt apply --3way $patch || { echo "APPLY FAILED"; cat /tmp/apply.err.$$; git -C /repo worktree remove --force $wt; exit 2; }
 mkdir -p /tmp/wt/ev-$$
-SPOWTD_REPO=$wt timeout 3000 python3 /verif/run_check.py $pid --tier $tier 2>&1 | grep -E "VIOLATION|HARNESS-ERROR|KNOWN|^C[0-9]+ |::" | cut -c1-300 | head -8
+SPOWTD_REPO=$wt VERIF_EVIDENCE_DIR=/tmp/wt/ev-trial VERIF_REPLAY_DIR=/tmp/wt/ev-trial timeout 3000 python3 /verif/run_check.py $pid --tier $tier 2>&1 | grep -E "VIOLATION|HARNESS-ERROR|KNOWN|^C[0-9]+ |::" | cut -c1-300 | head -8
 echo "exit=${PIPESTATUS[0]}"
 git -C /repo worktree remove --force $wt; rm -f /tmp/apply.err.$$
